@@ -113,6 +113,10 @@ pub struct BnfParams {
     pub ambiguous_ok: bool,
     pub pool: Pool,
     pub templates: bool,
+    /// every grammar is a literature template (plus the optional perturbation)
+    pub templates_only: bool,
+    /// restrict the templates to these indices (empty = all)
+    pub template_set: &'static [usize],
 }
 
 #[derive(Clone, Copy, Debug, PartialEq, Eq)]
@@ -156,6 +160,8 @@ impl BnfParams {
             ambiguous_ok: false,
             pool: Pool::Plain,
             templates: true,
+            templates_only: false,
+            template_set: &[],
         }
     }
     pub fn glr_small() -> Self {
@@ -284,10 +290,26 @@ const TEMPLATES: &[&[(&str, &[&str])]] = &[
     ],
     // 21 self-loop state whose kernel item gets a lookahead only over the loop
     &[("S", &["A e", "a a A b b"]), ("A", &["B", "C"]), ("B", &["c D"]), ("C", &["c E d"]), ("E", &["D", "e"]), ("D", &["e E"])],
+    // 22 left recursion whose non-terminal is nullable only through another rule (FIRST of the
+    //    recursive tail must reach FIRST(A))
+    &[("S", &["B A e"]), ("B", &["a"]), ("A", &["A b", "C"]), ("C", &["c", ""])],
+    // 23 two trailing nullables with hidden right recursion: one state reduces the same
+    //    production with different right-nulled lengths
+    &[("S", &["A", "B e"]), ("A", &["B C"]), ("B", &["a", ""]), ("C", &["A c", ""])],
+    // 24 hidden right recursion behind the first of two nullable tail symbols (intermediate
+    //    right-nulled reduction lengths are needed when an existing head gets a new edge)
+    &[("S", &["a B C"]), ("B", &["b S", ""]), ("C", &["c", ""])],
+    // 25 right recursion through a unit production (length-1 reductions over late edges)
+    &[("S", &["A", "d"]), ("A", &["a b S"])],
+    // 26 indirect left recursion through a unit chain with a second, merged context
+    &[("S", &["A", "a A b"]), ("A", &["B"]), ("B", &["C"]), ("C", &["A b", ""])],
 ];
 
-fn build_template(raw: &RawG, pool: &[TermSpec]) -> GrammarSpec {
-    let tpl = TEMPLATES[pick(raw.template, TEMPLATES.len())];
+/// right-nullable shapes (for right-nulled table cells)
+pub const RN_TEMPLATES: &[usize] = &[5, 8, 9, 10, 12, 13, 14, 17, 23, 24, 26];
+
+fn build_template(raw: &RawG, pool: &[TermSpec], set: &[usize]) -> GrammarSpec {
+    let tpl = if set.is_empty() { TEMPLATES[pick(raw.template, TEMPLATES.len())] } else { TEMPLATES[set[pick(raw.template, set.len())]] };
     // injection of placeholders a..e onto distinct pool terminals
     let mut avail: Vec<usize> = (0..pool.len()).collect();
     let mut map: Vec<usize> = vec![];
@@ -361,8 +383,8 @@ fn build_bnf(raw: RawG, p: &BnfParams) -> GrammarSpec {
         }
         Pool::Overlap => toverlap_pool(),
     };
-    if p.templates && raw.mixer >= 7 {
-        return build_template(&raw, &pool);
+    if p.templates && (raw.mixer >= 7 || p.templates_only) {
+        return build_template(&raw, &pool, p.template_set);
     }
     let terms = select_terms(&pool, raw.term_mask, p.max_terms, 2);
     let nt = terms.len();
@@ -552,10 +574,13 @@ pub enum LayoutStyle {
     Ascii,
     /// ASCII + multi-byte whitespace (NBSP, EM SPACE) + CRLF
     Unicode,
+    /// runs that end in a line break after blanks, blank-only lines, CRLF after blanks
+    Lines,
 }
 
 const WS_ASCII: &[&str] = &["", " ", "", "  ", "\n", "\t", " \n ", "\n\n", ""];
 const WS_UNI: &[&str] = &["", " ", "\u{a0}", "\r\n", "\n", "\u{2003} ", "", " \n\u{a0}", "\t"];
+const WS_LINES: &[&str] = &["", " ", " \n", "\t\n", "  \r\n", "\n", " \n\n", "\n \n", " \n  ", "\r\n", "\u{a0}\n", " \t \n"];
 
 #[derive(Clone, Debug)]
 pub struct Rendered {
@@ -594,6 +619,7 @@ pub fn render_tokens_sep(
             LayoutStyle::Minimal => String::new(),
             LayoutStyle::Ascii => WS_ASCII[tape.pick(WS_ASCII.len())].to_string(),
             LayoutStyle::Unicode => WS_UNI[tape.pick(WS_UNI.len())].to_string(),
+            LayoutStyle::Lines => WS_LINES[tape.pick(WS_LINES.len())].to_string(),
         };
         if force_sep && ws.is_empty() && i > 0 && prev_regex && term.is_regex() {
             ws.push(' ');
@@ -610,6 +636,7 @@ pub fn render_tokens_sep(
         LayoutStyle::Minimal => String::new(),
         LayoutStyle::Ascii => WS_ASCII[tape.pick(WS_ASCII.len())].to_string(),
         LayoutStyle::Unicode => WS_UNI[tape.pick(WS_UNI.len())].to_string(),
+        LayoutStyle::Lines => WS_LINES[tape.pick(WS_LINES.len())].to_string(),
     };
     text.push_str(&trail);
     layouts.push(trail);
@@ -655,6 +682,23 @@ pub fn sprinkle_meta(spec: &mut GrammarSpec, tape: &mut Cursor, term_assoc: bool
         for t in spec.terms.iter_mut() {
             if tape.pick(5) == 0 {
                 t.assoc = ASSOCS[tape.pick(ASSOCS.len())];
+            }
+        }
+    }
+}
+
+/// Production priorities that thin out the cells of a right-nulled (GLR) table: EMPTY
+/// alternatives get a low priority (so the reduction of a right-nullable production survives
+/// alone against the empty reductions of its tail), other alternatives occasionally a high one.
+pub fn prioritise_against_empty(spec: &mut GrammarSpec, tape: &mut Cursor) {
+    for r in spec.rules.iter_mut() {
+        for a in r.alts.iter_mut() {
+            if a.syms.is_empty() {
+                if tape.pick(4) != 0 {
+                    a.meta.prio = Some(5);
+                }
+            } else if tape.pick(6) == 0 {
+                a.meta.prio = Some(15);
             }
         }
     }
@@ -1331,6 +1375,165 @@ pub fn build_ast(tape: &[u16]) -> GrammarSpec {
         terms.push(TermSpec::str("ABang", "!"));
     }
     GrammarSpec { terms, rules, layout: None }
+}
+
+/// G-rec: small conflict-free grammars whose AST types are recursive through a vector, an
+/// optional or a `?*+` edge that points back to its own rule or to an ancestor (the edge that
+/// gets the `Box` depends on the order in which the type walk reaches the rules, so the rule
+/// order and the order of the statements vary). Pure function of the tape.
+pub fn build_rec(tape: &[u16]) -> GrammarSpec {
+    let mut c = Cursor::new(tape);
+    let terms = ast_terms();
+    let mk = |syms: Vec<SymUse>| AltSpec { syms, meta: Meta::default() };
+    let lp = || tinline(T_LPAR, false);
+    let rp = || tinline(T_RPAR, true);
+    // body rules as (name, annotation, alternatives); indexes are fixed up below: body rule k
+    // is rule 2 + k
+    let n = |k: usize| SymUse::plain(Sym::N(2 + k));
+    let mut body: Vec<(String, Option<String>, Vec<AltSpec>)> = vec![];
+    let shape = c.pick(5);
+    match shape {
+        0 => {
+            // element <-> hand written @vec rule
+            let elem_first = c.pick(2) == 0;
+            let (ei, li) = if elem_first { (0, 1) } else { (1, 0) };
+            let right = c.pick(2) == 0;
+            let sep = c.pick(3) == 0;
+            let empty_base = !right && !sep && c.pick(3) == 0;
+            let mut ealts = vec![mk(vec![tsym(T_NUM)])];
+            if c.pick(2) == 0 {
+                ealts.push(mk(vec![tsym(T_ID)]));
+            }
+            match c.pick(3) {
+                0 => ealts.push(mk(vec![lp(), n(li), rp()])),
+                1 => ealts.push(mk(vec![tinline(T_KW0, false), tsym(T_NUM), lp(), n(li), rp()])),
+                _ => {
+                    ealts.push(mk(vec![lp(), n(li), rp()]));
+                    ealts.push(mk(vec![tinline(T_KW0 + 1, true), lp(), n(li), rp(), tsym(T_ID)]));
+                }
+            }
+            let mut rec = vec![];
+            if right {
+                rec.push(n(ei));
+                if sep {
+                    rec.push(tsym(T_COMMA));
+                }
+                rec.push(n(li));
+            } else {
+                rec.push(n(li));
+                if sep {
+                    rec.push(tsym(T_COMMA));
+                }
+                rec.push(n(ei));
+            }
+            let mut lalts = vec![mk(rec), mk(vec![n(ei)])];
+            if empty_base {
+                lalts.push(mk(vec![]));
+            }
+            let e = ("Item".to_string(), None, ealts);
+            let l = ("Items".to_string(), Some("vec".to_string()), lalts);
+            if elem_first {
+                body.push(e);
+                body.push(l);
+            } else {
+                body.push(l);
+                body.push(e);
+            }
+        }
+        1 => {
+            // `?*+` sugar that refers back to its own rule
+            let (op, sep) = match c.pick(5) {
+                0 => (RepOp::Plus, None),
+                1 => (RepOp::Star, None),
+                2 => (RepOp::Plus, Some(T_COMMA)),
+                3 => (RepOp::Star, Some(T_COMMA)),
+                _ => (RepOp::Opt, None),
+            };
+            let mut u = n(0);
+            u.rep = Some((op, sep));
+            if c.pick(3) == 0 {
+                u = named(u, "items", false);
+            }
+            let mut alts = vec![mk(vec![tsym(T_NUM)])];
+            if c.pick(2) == 0 {
+                alts.push(mk(vec![tinline(T_KW0 + 2, false), tsym(T_ID), lp(), u, rp()]));
+            } else {
+                alts.push(mk(vec![lp(), u, rp()]));
+            }
+            body.push(("Node".to_string(), None, alts));
+        }
+        2 => {
+            // struct with an optional reference to itself (sugar or an explicit optional rule)
+            if c.pick(2) == 0 {
+                let mut u = n(0);
+                u.rep = Some((RepOp::Opt, None));
+                body.push(("Node".to_string(), None, vec![mk(vec![tsym(T_ID), lp(), u, rp()])]));
+            } else {
+                let opt_first = c.pick(2) == 0;
+                let (ni, oi) = if opt_first { (1, 0) } else { (0, 1) };
+                let node = ("Node".to_string(), None, vec![mk(vec![tsym(T_ID), lp(), n(oi), rp()])]);
+                let opt = ("Opt".to_string(), None, vec![mk(vec![n(ni)]), mk(vec![])]);
+                if opt_first {
+                    body.push(opt);
+                    body.push(node);
+                } else {
+                    body.push(node);
+                    body.push(opt);
+                }
+            }
+        }
+        3 => {
+            // optional reference to an ancestor through an intermediate rule
+            let mut u = n(0);
+            u.rep = Some((RepOp::Opt, None));
+            body.push(("Node".to_string(), None, vec![mk(vec![tinline(T_KW0 + 3, false), n(1)])]));
+            let mut leaf = vec![mk(vec![tsym(T_NUM), lp(), u, rp()])];
+            if c.pick(2) == 0 {
+                leaf.push(mk(vec![tsym(T_ID)]));
+            }
+            body.push(("Leaf".to_string(), None, leaf));
+        }
+        _ => {
+            // vector of structs with an optional vector inside
+            let left = c.pick(2) == 0;
+            let mut u = n(0);
+            u.rep = Some((RepOp::Opt, None));
+            let rec = if left { vec![n(0), n(1)] } else { vec![n(1), n(0)] };
+            body.push(("Items".to_string(), Some("vec".to_string()), vec![mk(rec), mk(vec![n(1)])]));
+            body.push(("Node".to_string(), None, vec![mk(vec![tsym(T_ID), lp(), u, rp()])]));
+        }
+    }
+    let mut rules: Vec<RuleSpec> = vec![
+        RuleSpec { name: "S".into(), annotation: None, meta: Meta::default(), alts: vec![] },
+        RuleSpec { name: "Stmt".into(), annotation: None, meta: Meta::default(), alts: vec![] },
+    ];
+    let nbody = body.len();
+    for (name, annotation, alts) in body {
+        rules.push(RuleSpec { name, annotation, meta: Meta::default(), alts });
+    }
+    // statements: every body rule, or only one of them; in either order
+    let mut order: Vec<usize> = (0..nbody).collect();
+    if c.pick(2) == 0 {
+        order.reverse();
+    }
+    if nbody > 1 && c.pick(3) == 0 {
+        order.truncate(1);
+    }
+    rules[1].alts = order
+        .iter()
+        .map(|k| AltSpec {
+            syms: vec![tsym(T_KW0 + 4 + k), tsym(T_BANG), SymUse::plain(Sym::N(2 + k)), tsym(T_SEMI)],
+            meta: Meta::default(),
+        })
+        .collect();
+    let mut s_use = SymUse::plain(Sym::N(1));
+    s_use.rep = Some((if c.pick(2) == 0 { RepOp::Plus } else { RepOp::Star }, None));
+    rules[0].alts = vec![AltSpec { syms: vec![s_use], meta: Meta::default() }];
+    GrammarSpec { terms, rules, layout: None }
+}
+
+pub fn g_rec() -> impl Strategy<Value = Vec<u16>> {
+    proptest::collection::vec(any::<u16>(), 12..16)
 }
 
 pub fn g_ast() -> impl Strategy<Value = Vec<u16>> {
